@@ -69,6 +69,10 @@ VARIANTS = {
     "plain": (["-DWITH_OBJECTSTORE_BACKEND_DB=OFF"], "-O1 -g", ""),
     "asan": (["-DWITH_OBJECTSTORE_BACKEND_DB=OFF"], "-O1 -g -fsanitize=address,undefined -fno-sanitize-recover=undefined -fno-omit-frame-pointer", "-fsanitize=address,undefined"),
     "db": (["-DWITH_OBJECTSTORE_BACKEND_DB=ON"], "-O1 -g", "-lsqlite3"),
+    # Botan crypto backend: the project's CMake cannot configure it in this sandbox (it injects MSVC flags), so the library is compiled from an own file list
+    # (every src/lib .cpp except the OpenSSL ones) against the config.h of the plain variant with WITH_OPENSSL switched to WITH_BOTAN
+    "botan": (None, "-O1 -g", "-lbotan-2"),
+    "botandb": (None, "-O1 -g", "-lbotan-2 -lsqlite3"),
 }
 
 
@@ -76,8 +80,44 @@ def lib_path(variant):
     return os.path.join(BUILD, variant, "src", "lib", "libsofthsm2-static.a")
 
 
+def build_botan(variant="botan"):
+    """compile src/lib with the Botan back end by hand (make-like: only files newer than their object); `botandb`: with the SQLite object store compiled in"""
+    import concurrent.futures
+    bdir = os.path.join(BUILD, variant); os.makedirs(os.path.join(bdir, "obj"), exist_ok=True); os.makedirs(os.path.join(bdir, "src", "lib"), exist_ok=True)
+    base = "db" if variant == "botandb" else "plain"
+    if not os.path.exists(os.path.join(BUILD, base, "config.h")):
+        ok, out = build_variant(base)
+        if not ok: return False, out
+    cfg = open(os.path.join(BUILD, base, "config.h")).read()
+    cfg = cfg.replace("#define WITH_OPENSSL 1", "/* #undef WITH_OPENSSL */").replace("/* #undef WITH_BOTAN */", "#define WITH_BOTAN 1")
+    for extra in ("WITH_RAW_PSS", ):
+        pass
+    cp = os.path.join(bdir, "config.h")
+    if not os.path.exists(cp) or open(cp).read() != cfg: open(cp, "w").write(cfg)
+    files = []
+    for d, dn, fn in os.walk(os.path.join(REPO, "src", "lib")):
+        dn[:] = [x for x in dn if x not in ("test", "win32")]
+        for f in sorted(fn):
+            if f.endswith(".cpp") and not f.startswith("OSSL") and f != "main_test.cpp": files.append(os.path.join(d, f))
+    incs = [f"-I{bdir}", "-I/usr/include/botan-2"] + [f"-I{os.path.join(REPO, i)}" for i in LIB_INCS]
+    def cc(f):
+        o = os.path.join(bdir, "obj", os.path.relpath(f, REPO).replace("/", "_")[:-4] + ".o")
+        if os.path.exists(o) and os.path.getmtime(o) > max(os.path.getmtime(f), os.path.getmtime(cp)): return o, 0, ""
+        rc, out = sh(["g++", "-std=c++17", "-O1", "-g", "-w", "-fPIC", "-DHAVE_CONFIG_H"] + incs + ["-c", f, "-o", o])
+        return o, rc, out
+    with concurrent.futures.ThreadPoolExecutor(max_workers=JOBS) as ex: res = list(ex.map(cc, files))
+    bad = [(o, out) for o, rc, out in res if rc != 0]
+    if bad: return False, "\n".join(o + ":\n" + out[-1500:] for o, out in bad[:3])
+    lib = lib_path(variant)
+    if os.path.exists(lib): os.unlink(lib)
+    rc, out = sh(["ar", "rcs", lib] + [o for o, _, _ in res])
+    return rc == 0, out
+
+
 def build_variant(variant):
     """(re)build the static library of `variant` from /repo's current working tree (incremental)"""
+    if variant in ("botan", "botandb"):
+        return build_botan(variant)
     opts, cxx, _ = VARIANTS[variant]
     bdir = os.path.join(BUILD, variant)
     if not os.path.exists(os.path.join(bdir, "build.ninja")):
